@@ -22,6 +22,7 @@ type Clause struct {
 	Expr   ast.Expr
 	Line   string   // file:line
 	Forall []AnyVar // top-level universal quantifier: "forall k T, j U :: body"
+	Local  bool     // ensures-local: checked in the function, not assumed by callers
 }
 
 type AnyVar struct {
@@ -109,7 +110,7 @@ var reLabel = regexp.MustCompile(`^([A-Za-z0-9_\-#./]+):\s+(.*)$`)
 
 var keywords = map[string]bool{"func": true, "any": true, "requires": true, "ensures": true, "modifies": true,
 	"loop": true, "trusted": true, "spec": true, "lemma": true, "assume": true, "show": true, "package": true,
-	"global": true, "ghost": true, "option": true, "pure": true, "ghostvar": true, "ufunc": true, "ghosttype": true, "at": true, "model": true, "ensures-assumed": true, "axiom": true}
+	"global": true, "ghost": true, "option": true, "pure": true, "ghostvar": true, "ufunc": true, "ghosttype": true, "at": true, "model": true, "ensures-assumed": true, "ensures-local": true, "axiom": true}
 
 func (db *ContractDB) errf(format string, a ...interface{}) {
 	db.Errors = append(db.Errors, fmt.Sprintf(format, a...))
@@ -267,6 +268,15 @@ func (db *ContractDB) loadFile(path, defaultPkg string) {
 		case "ensures":
 			if cur != nil {
 				cur.Ensures = append(cur.Ensures, db.clause(d.rest, where))
+			}
+		case "ensures-local":
+			// checked at every return like an ensures clause, but may mention the
+			// function's local variables (their final values) and is therefore not
+			// part of what callers learn
+			if cur != nil {
+				c := db.clause(d.rest, where)
+				c.Local = true
+				cur.Ensures = append(cur.Ensures, c)
 			}
 		case "ensures-assumed":
 			if cur != nil {
